@@ -27,6 +27,31 @@ HEAD_F = ("sym", "HF")
 # ----------------------------------------------------------------------------------------------
 # harness per back-end
 # ----------------------------------------------------------------------------------------------
+def _state_of_path(p):
+    """(oid of the epistemic state of the operator the path was entered on, {oid of its CNF dictionaries: name})"""
+    state_oid = None
+    for ev, Q in iter_events(p.events):
+        if ev.kind == "enter" and not Q:
+            a0 = ev.args[0] if ev.args else None
+            o = p.state.heap.get(a0.oid) if isinstance(a0, Ref) else None
+            r = o.attrs.get("epistemic_state") if isinstance(o, HObj) else None
+            if isinstance(r, Ref):
+                state_oid = r.oid
+            break
+    if state_oid is None:
+        for oid, o in p.state.heap.items():
+            if isinstance(o, HDict) and "v_cnf_dict" in o.entries and "belief_base" in o.entries:
+                state_oid = oid
+    names = {}
+    o = p.state.heap.get(state_oid)
+    if isinstance(o, HDict):
+        for nm in ("v_cnf_dict", "f_cnf_dict", "nf_cnf_dict"):
+            r = o.entries.get(nm)
+            if isinstance(r, Ref):
+                names[r.oid] = nm
+    return state_oid, names
+
+
 class Backend:
     def __init__(self, name, cls, lex):
         self.name = name  # 'rc2' | 'z3'
@@ -81,15 +106,7 @@ class Backend:
         site, paths = entry_paths(None, ex, self)
         found = []
         for p in paths:
-            names = {}
-            state_oid = None
-            for oid, o in p.state.heap.items():
-                if hasattr(o, "entries") and "v_cnf_dict" in getattr(o, "entries", {}):
-                    state_oid = oid
-                    for nm in ("v_cnf_dict", "f_cnf_dict", "nf_cnf_dict"):
-                        r = o.entries.get(nm)
-                        if isinstance(r, Ref):
-                            names[r.oid] = nm
+            state_oid, names = _state_of_path(p)
             for ev, Q in iter_events(p.events):
                 if ev.kind == "dict.set" and isinstance(ev.obj, Ref) and isinstance(ev.value, ElemV) and ev.value.role == "cnf" and isinstance(ev.key, Const) and not Q:
                     f = ev.value.var[1]
@@ -451,6 +468,8 @@ def w_rec(rep, ex: Explorer, be: Backend):
                 continue
             if pp[0] == "forall" and pp[2][0] == "members" and isinstance(pp[2][1], tuple) and pp[2][1][:2] == ties_d and set(pp[2][1][2:]) == {V, Fm} and pp[3] == PTRUE \
                     and pp[4][0] == "truthy" and isinstance(pp[4][1], tuple) and pp[4][1][:1] == ("rec",) and not neg and tie:
+                if E is True:
+                    continue  # no tie on this path: the condition ranges over nothing and the answer is True
                 if k0 is not False:
                     rep.violation("W.decision", site, "tie at layer 0", "the recursion below a tie is not guarded against layer 0", extracted="no test of k" if K0 is None else "k may be 0", required="k=0 ⇒ False", function=site)
                 _check_tie_recursion(rep, be, site, tie[-1], p, lex=False)
@@ -641,15 +660,7 @@ def query_slots(rep, be: Backend, site, p, prefix, keys=False, history=False):
     """rc2: the query's CNFs are stored where `_rec_inference` reads them (the reader side is decided by
     W/LEX.soft/hard on a state seeded from these very stores); QUERYSLOT.def-before-use: both are written before the
     recursion starts; KEY.no-reserved: not under a literal key of a dictionary that is keyed by the base's keys."""
-    state_oid = None
-    names = {}
-    for oid, o in p.state.heap.items():
-        if hasattr(o, "entries") and "v_cnf_dict" in getattr(o, "entries", {}):
-            state_oid = oid
-            for nm in ("v_cnf_dict", "f_cnf_dict", "nf_cnf_dict"):
-                r = o.entries.get(nm)
-                if isinstance(r, Ref):
-                    names[r.oid] = nm
+    state_oid, names = _state_of_path(p)
     evs = [ev for ev, Q in iter_events(p.events)]
     kinds = {}
     for i, ev in enumerate(evs):
